@@ -52,6 +52,100 @@ CHECKS = {
             "observable of the real environment from every env state (n=3 all, n=4 selected games).",
             "d = 1 (2 on an eighth of the games) quick, 2 (3 on 1/16) thorough; quick explores a third of the 3-player games per seed.",
             "DESIGN.md §6 C08"),
+    "C05": ("E5 generic-point execution + basis/lattice enumeration",
+            "complete enumeration of a basis of the bound-vector space and of a 4096-point lattice, plus all box vertices; real code executed on indeterminates as linearity guard",
+            "The real compute_exploitability is executed on indeterminate bounds (exact coefficient of every lower/upper bound for n=2..7(8)); every unit bound vector "
+            "(basis) through the float path; all 4096 three-player bound vectors over four interval shapes and canonical tables of the real computer (n=3,4): value == "
+            "binomially weighted gap, sign, zero iff degenerate; for each of them every vertex completion of the box is enumerated and the per-player maximum used by the "
+            "code compared with the maximum of the orderings-Shapley value over the vertices.",
+            "Linearity of the executed path is established by the guard run (no solver); float comparisons within 1e-11*scale*n.",
+            "DESIGN.md §6 C05"),
+    "C06": ("E5 generic-point execution + basis x orderings enumeration",
+            "complete enumeration: every unit game x all n! orderings per n, all games of two small lattices; real code executed on indeterminates as linearity guard",
+            "For each n=2..7(8) the exact coefficient of every v(S) in every player's value (real code on indeterminates) equals the count over all n! orderings; every unit "
+            "game through the real float path via both entry points; all 2187 three-player games over {-1,0,1}, all 2048 four-player 0/1 games, 729 mixed games; efficiency, "
+            "null players, relabellings, additivity on all pairs of basis games.",
+            "n=9,10 efficiency/symmetry only; float rounding bounded by 1e-12*scale, not enumerated.",
+            "DESIGN.md §6 C06"),
+    "C09": ("E1 env explorer",
+            "explicit-state BFS to closure over {step, unstep of any revealed action, reset} on the real environment with deep-copied states and a reference environment",
+            "The real ICG_Gym with a scripted hidden-game generator is explored to closure (n=3: every knowledge state x script position; n=4: all 1024 or the 16/64 states with "
+            "pairs/triples known from the start); after EVERY transition all observables and the call's return value are compared with a dict reference environment "
+            "(known set, hidden values, mask, normalised observation, reward = -first-principles gap of fresh bounds, done predicate, info, step counter) for every matching "
+            "computer x four gap functions x budgets.",
+            "States are deep copies of the env; dedup on (model state, canonical digest of all attributes); nearly additive hidden games use the library's normalised copy for the observation.",
+            "DESIGN.md §6 C09"),
+    "C10": ("configuration sweep",
+            "complete enumeration of the generator registry x player counts x a seed window x two identically seeded calls; exact-rational class predicates",
+            "Every registry key except 'convex' x n=3..7 (thorough 8) x every seed of a window moved by VERIF_SEED: runs, right size/dtype, v(empty)=0, superadditive within the "
+            "documented 1e-9 tolerance decided in exact rationals, monotone for the SAM families, identical for identical seeds except the documented exceptions.",
+            "'All seeds' is met by a complete window; 'convex' needs the absent pyfmtools.",
+            "DESIGN.md §6 C10"),
+    "C11": ("E2 deterministic pool + enumeration",
+            "exhaustive enumeration of schedules (worker counts = chunkings x chunk->worker assignments) on a deterministic process pool, independent subset enumeration as oracle",
+            "get_exploitabilities_of_action_sequences for every starting knowledge (n=3 all; n=4 selected) x size limit x every worker count p x chunk->worker assignments on "
+            "DetPool (real forked workers, chunks pickled as units), conformance runs on the real Pool; enumerated sets == all subsets once, gaps == gap of a fresh game with "
+            "that knowledge, schedule independent; MetaGame values for all meta-coalitions; get_best_exploitability vs exhaustive per-size optimum.",
+            "forkserver start method, worker crashes and timing are not modelled.",
+            "DESIGN.md §6 C11"),
+    "C12": ("E2 deterministic pool",
+            "exhaustive enumeration of schedules (every worker count = every chunking of the repetition list, chunk->worker assignments) on a deterministic process pool",
+            "evaluate() configured like the solve command for solvers x generators x repetition counts x p (quick 1,2,3,4,16; thorough 1..16) x assignments: every column "
+            "replayed against its repetition's hidden game (reported through after_reset), matrices identical for all schedules, continuous generators give pairwise distinct "
+            "hidden games; real-Pool conformance runs. The random solver's per-chunk restart is a listed known finding recognised only by an exact behavioural model.",
+            "forkserver not modelled; the known-finding matcher accepts only action matrices equal to the restart model's prediction.",
+            "DESIGN.md §6 C12, §7 F5b"),
+    "C13": ("E1 env walk + E2 deterministic pool",
+            "exhaustive visit of every environment knowledge state with every registered solver; expected-greedy under every schedule of a deterministic pool",
+            "Every state of the knowledge lattice (n=3 all 8, n=4 all 1024 / 64) on one long-lived env: each solver's action is valid, obeys its rule against an independent "
+            "reward table, ties to the lowest index where exactly comparable, every attribute of the env unchanged; get_greedy_rewards on scripted game sets x step limits x "
+            "worker counts x assignments: greedy rule per step, no repeats, monotone curve, >= exhaustive optimum and == for 0 and 1 reveals, schedule independent.",
+            "Tie-breaking inside float tolerance (exploitability / l2) is unconstrained.",
+            "DESIGN.md §6 C13"),
+    "C14": ("E1 regret explorer",
+            "explicit-state BFS over iteration histories (state = both tables + counter) with invariants at every node of the game tree",
+            "Construction for n=3 limits 1..5, n=4 limits 1..12, n=5 limits 1..3, plain/plus: ranking bijection, order, inverse; BFS over terminal-value vectors (n=3 all of "
+            "{0,1,2}^terminals to depth 2/3; n=4,5 structured alphabets to depth 1-2): distributions, supports, orthogonality, plus-twin relation, save/load continuation.",
+            "float32 tolerances; states restored by assigning table copies, re-derived on fresh objects by history replay (all states at n=3).",
+            "DESIGN.md §6 C14"),
+    "C15": ("input enumeration",
+            "complete enumeration of integer/dyadic game lattices, additive and nearly additive families and generator seed windows against exact-rational normalisation",
+            "All A3-SA / A4-SA games x {plain, shift, dyadic}, additive integer and float games, nearly additive games (additive + 2^-k * superadditive), every registered "
+            "generator in a seed window (graph games in both representations): values compared with exact rational normalisation under a three-zone specification; "
+            "de-normalisation restores the input.",
+            "Between 1e-12 and 2^-21 relative surplus either outcome is accepted.",
+            "DESIGN.md §6 C15"),
+    "C16": ("E1 + E4 choice controller",
+            "explicit-state BFS where every (size, tie-break candidate) pair is a transition: numpy.random.choice is owned by the harness",
+            "ICG_Gym_Linear explored with all tie-breaks enumerated: n=3,4 all states until done, n=5 depth 3(4), n=6 depth 2: mask per size, candidates offered == unknown "
+            "coalitions of that size, exactly one new coalition of that size revealed and reported, reward/done/observation aggregation against the wrapped env.",
+            "If a step stops consulting numpy.random.choice the run is marked non-exhaustive (never a violation).",
+            "DESIGN.md §6 C16"),
+    "C17": ("E1 object explorer",
+            "explicit-state BFS over public value operations of the real game object with a dict reference model",
+            "n=1,2 to closure, n=3 depth 3 (thorough 4), n=5 depth 2, plus roots produced by a real bound computer: after every operation every public getter is compared "
+            "with the model; copy / negation independence probed in every state.",
+            "Bounds of unknown coalitions left unspecified by the statement are not compared.",
+            "DESIGN.md §6 C17"),
+    "C18": ("input enumeration",
+            "complete enumeration of coalitions (n<=10), ordered pairs (n<=6) and of two game lattices for the predicates, against Python frozenset / textbook definitions",
+            "Every coalition for n=1..10 (3^n sub/super elements), every ordered pair for n<=6, object API vs id-array API vs frozenset; predicates on all 16384 + 2x32768 + "
+            "2187 lattice games plus relative-1e-6 perturbations of tight constraints.",
+            "Inside of the documented 1e-9 band unconstrained.",
+            "DESIGN.md §6 C18"),
+    "C19": ("E1 file explorer",
+            "explicit-state BFS over save sequences (state = bytes of data.json) against a first-write-wins dict model",
+            "All sequences of save_json(name, result) over 3 names x 4 result shapes to depth 3 (thorough 4) with metadata of non-JSON types; read-back through both loaders; "
+            "the same through save() with all savers; solve / greedy / best_states commands with the producing function wrapped.",
+            "Other savers' exceptions on repeated / path-like names are outside the statement.",
+            "DESIGN.md §6 C19"),
+    "C20": ("E3 CrashFS",
+            "exhaustive fault enumeration on the real save path: kill before every OS-level operation, every torn-write offset, OSError at every operation, interrupt at traced lines",
+            "File histories with 0/1/3 earlier runs x result sizes 200 B / 3 KiB / 40 KiB x every kill point (cross-checked against a forked child that really dies), every "
+            "torn-write byte offset (<= 2 KiB payloads; boundary + stride above), ENOSPC/EIO at every operation, KeyboardInterrupt at traced lines; afterwards data.json is the "
+            "old or the complete new file, parses, keeps earlier runs, and a recovery save works.",
+            "Process death / interruption, not power loss; interrupt injection is strided for large results (reported as a cap).",
+            "DESIGN.md §6 C20"),
 }
 
 NOT_YET = {}
@@ -93,6 +187,16 @@ def main() -> None:
         "engines": [
             {"name": "E1 lattice explorer", "path": "icverif/lattice.py", "serves_properties": ["C01", "C02", "C03", "C04", "C07", "C08"],
              "kind_free_text": "explicit-state exploration driving the real IncompleteCooperativeGame + bound computers"},
+            {"name": "E1 env explorer", "path": "icverif/envmodel.py", "serves_properties": ["C08", "C09", "C13", "C16"],
+             "kind_free_text": "BFS over step/unstep/reset of the real gym environment with a reference environment"},
+            {"name": "E2 deterministic pool", "path": "icverif/detpool.py", "serves_properties": ["C11", "C12", "C13"],
+             "kind_free_text": "drop-in for multiprocessing.Pool with harness-chosen chunk->worker assignment, real forked workers"},
+            {"name": "E3 CrashFS", "path": "icverif/crashfs.py", "serves_properties": ["C20"],
+             "kind_free_text": "fault-injecting file layer: kill / tear / fail at every OS-level operation"},
+            {"name": "E4 choice controller", "path": "icverif/props/c16.py", "serves_properties": ["C16"],
+             "kind_free_text": "owns numpy.random.choice so every tie-break is a transition"},
+            {"name": "E5 generic-point execution", "path": "icverif/linform.py", "serves_properties": ["C05", "C06"],
+             "kind_free_text": "real code executed on formal linear forms (linearity guard for the basis argument)"},
         ],
         "checks": checks,
         "not_applicable": na,
